@@ -207,7 +207,7 @@ func main() {
 		chainmc.WorkerMain(chainModel(run.Thorough()))
 		return
 	}
-	run.SetBudget(6*60e9, 40*60e9)
+	run.SetBudget(6*60e9, 20*60e9)
 	if run.Replay != "" {
 		replayFile(run)
 		return
